@@ -111,7 +111,7 @@ Definition case_violation (c : c11case) : list diffkind :=
   | CLoad all default chain cli obs =>
       (* the lists may differ by adjacent duplicates; the selection they denote may not *)
       let spec := spec_effective default chain cli in
-      if forallb (fun a => Bool.eqb (allowed all spec a) (allowed all obs a)) (all ++ map pattern_of spec) then [] else [DAllowed]
+      if forallb (fun a => Bool.eqb (allowed all spec a) (allowed all obs a)) (all ++ map pattern_of spec ++ map pattern_of obs) then [] else [DAllowed]
   | CExit f all fail si nc ps oe oo =>
       (if Z.eqb (spec_exit f all fail si nc ps) oe then [] else [DExit]) ++
       (if mset_eqb rendered_eqb (spec_output f si nc ps) oo then [] else [DOutput])
@@ -131,7 +131,9 @@ Definition case_mismatch (c : c11case) : list diffkind :=
   | CMerge default chain cli obs =>
       if list_eqb String.eqb (merge_opt (merge_configs default chain) cli) obs then [] else [DList]
   | CLoad all default chain cli obs =>
-      if list_eqb String.eqb (effective_checks default chain cli) obs then [] else [DList]
+      (* compared on the selection the list denotes (the property's observable), not on its spelling *)
+      let eff := effective_checks default chain cli in
+      if forallb (fun a => Bool.eqb (allowed all eff a) (allowed all obs a)) (all ++ map pattern_of eff ++ map pattern_of obs) then [] else [DAllowed]
   | CExit f all fail si nc ps oe oo =>
       (if Z.eqb (exit_status f all fail si nc ps) oe then [] else [DExit]) ++
       (if mset_eqb rendered_eqb (format_output f (to_print all fail si nc ps)) oo then [] else [DOutput])
